@@ -21,6 +21,83 @@ ASSUMPTIONS = [
     "textwrap.TextWrapper as modelled in PyLib/TextWrap.v (validated on every generated row)",
 ]
 
+# ---- the theorem domains evaluated on the generated cases (audit D12) ------------------------------------------
+# `run` answers, for a pipeline case R<ropts0> W<wopts> R<ropts>, with the model of the first read and of the write:
+#   "F"  the written form satisfies file_hypsb (and the other premises of C01_file_roundtrip_checked: write = WOk,
+#        write_sections, dsh_of, las_null_text, row texts defined, ignore_data off) for the options of the re-read,
+#   "H"  not "F", but the premises of C03_file_roundtrip hold (header_hyps, text_hyps, written tokens numeric and clean,
+#        blank spacers, data_text_hyps),
+#   "o"  neither; "w": the model's write is not defined; "r": the model's first read fails.
+# Inside "F"/"H" the theorem's conclusion is about the model's read of the written text; the correspondence of the same
+# case compares that model run with lasio's output, so an in-domain case that passes the correspondence is a case where
+# lasio did what the theorem predicts.
+RUN_DOMAIN = """
+Require Import Regex NumLit Num HeaderLine Tables SectionParse Sections DataRead Read TextWrap Writer
+  ReadShow WriteShow WriteOptionsProofs WriteDataProofs WriteDataTextProofs FileRoundTripText FileRoundTripCheck.
+Open Scope list_scope.
+Open Scope N_scope.
+Definition run (i : list N) : list N :=
+  match fields i with
+  | ops :: text :: rest =>
+      let (t, ft) := split_at_mark rest [] in
+      match split_char OPS ops with
+      | (82 :: rcode0) :: (87 :: wcode) :: (82 :: rcode) :: _ =>
+          let (ro0, _) := opt_of rcode0 in
+          let (ro, _) := opt_of rcode in
+          let o := wopts_of wcode in
+          let fz k := match tab_hex t k with Some h => hex_is_zero h | None => false end in
+          let hx k := match tab_hex t k with Some h => h | None => [63] end in
+          let fmtv := ftab_get ft in
+          let fmt_diff := fun f b a => ftab_get ft f (diff_key (hx b) (hx a)) in
+          let fmt_pi := fun f => ftab_get ft f PI_KEY in
+          let fstr := tab_str t in
+          let numeq := tab_numeq t in
+          let fhex := tab_hex t in
+          match read fhex fstr numeq ro0 text with
+          | ROk l0 =>
+              let m := mkmlas l0 (index_initial_of l0) in
+              match write fmtv fmt_diff fmt_pi fstr fz numeq o m,
+                    write_sections fmtv fmt_diff fstr fz numeq (wo_version o) (wo_wrap o) (col_fmt o 0%nat) m with
+              | WOk _ _, Some hs =>
+                  match las_null_text fstr (hs_las hs), dsh_of fmtv fmt_pi fstr o hs with
+                  | Some nt, Some _ =>
+                      match opt_all (map (row_text fmtv fmt_pi o (Some nt) 0%nat) (las_rows (hs_las hs))) with
+                      | Some _ =>
+                          if file_hypsb fmtv fmt_pi fstr fhex ro o hs nt && negb (o_ignore_data ro) then s2l "F"
+                          else if header_hypsb fstr ro hs && text_hypsb o hs
+                                  && forallb (forallb (wr_tokb fhex)) (tok_matrix fmtv o nt (las_rows (hs_las hs)))
+                                  && forallb is_space (wo_lhs_spacer o) && forallb is_space (wo_spacer o)
+                                  && data_text_hypsb fmtv o nt (las_rows (hs_las hs)) then s2l "H"
+                          else s2l "o"
+                      | None => s2l "w"
+                      end
+                  | _, _ => s2l "w"
+                  end
+              | _, _ => s2l "w"
+              end
+          | RErr _ => s2l "r"
+          end
+      | _ => s2l "?"
+      end
+  | _ => s2l "?"
+  end.
+"""
+
+
+DOMAIN_SAMPLE = 64
+
+
+def domain_counts(tag, cases, shard):
+    """-> ({"F": n, "H": n, "outside": n}, error text or None)"""
+    out_f, err = lib.run_coq_cases(tag, [], RUN_DOMAIN, [(c[0], "F") for c in cases], shard=shard)
+    if err:
+        return None, err
+    out_h, err = lib.run_coq_cases(tag + "h", [], RUN_DOMAIN, [(cases[i][0], "H") for i in out_f], shard=shard)
+    if err:
+        return None, err
+    return {"F": len(cases) - len(out_f), "H": len(out_f) - len(out_h), "outside": len(out_h)}, None
+
+
 FMTS = ["%.5f", "%.3f", "%.1f", "%.6e", "%.2e", "%g", "%.10g", "%10.3f", "%.0f"]
 
 
@@ -261,6 +338,19 @@ def run(ctx):
         res.corr_error = err
         for i in mism:
             res.mismatches.append({"text": meta[i][0], "ops": repr(meta[i][1])})
+        if not err:
+            t_dom = time.time()
+            # quick tier: the first cases (generation order is random; a C01 case costs ~1 s: up to 40 curves x 22 rows)
+            dcases = cases if ctx.thorough else cases[:DOMAIN_SAMPLE // 2]
+            dom, derr = domain_counts("c01dom", dcases, 1)     # one case per coqc: a wrapped case can cost 30 s
+            res.extra["domain_eval_s"] = round(time.time() - t_dom, 1)
+            if derr:
+                res.corr_error = "domain: " + derr
+            else:
+                hist["theorem_domain_evaluated_on"] = len(dcases)
+                hist["in_domain_of_C01_file_roundtrip_checked"] = dom["F"]
+                hist["in_domain_of_C03_file_roundtrip_only"] = dom["H"]
+                hist["outside_both_theorem_domains"] = dom["outside"]
     else:
         res.corr_error = "model not built"
     res.cases = len(cases)
